@@ -6,7 +6,7 @@ import AslModel.Generated.SymConsts
 only `SearchTree`/`EnterTree`'s *map* behaviour is observable) and the pass loop of `as.c AssembleFile`.
 
 Names are byte lists (`List Nat`), as in C.  Only integer symbols are modelled.  The SHA-1 suffix that `ChkTmp1`
-appends to `$$name` is modelled as the injective pairing `name ++ [1] ++ LastGlobSymbol` (the hash is a parameter). -/
+appends to `$$name` is modelled as the injective pairing `name ++ [1] ++ hex(LastGlobSymbol)` (the hash is a parameter). -/
 namespace AslModel.Sym
 open AslModel.Generated.Sym
 
@@ -78,6 +78,7 @@ structure St where
   lastGlob : Name := []                 -- LastGlobSymbol
   stacks : List (Name × List Int) := [] -- FirstStack (sorted by name)
   nopByte : Nat := 0xEA
+  enumCur : Int := 0                    -- EnumCurrentValue
 deriving Inhabited
 
 def St.err (st : St) (n : Nat) : St := { st with errs := (st.line, n) :: st.errs }
@@ -159,6 +160,20 @@ def getSymSection (st : St) (name : Name) : SymSec :=
       | some h => .sect base h
       | none => .invSection
 
+/-- `as_symbol_source_t`: who asks `ChkTmp` – a reference (`none`), a label in front of an instruction / pseudo
+instruction / macro call or alone on its line (`LabelHandle`, `eSymbolFlag_Label`), or any other defining statement
+(`EQU`, `SET`, `EVAL`, `=`, `:=`, `LABEL`, `ENUM`/`NEXTENUM`, … – `CreateSymbolEntry` without `eSymbolFlag_Label`) -/
+inductive SymSource where | none | label | define
+deriving Repr, DecidableEq
+
+/-- `ChkTmp3`: `.name` ↦ `LastGlobSymbol ++ .name`; any other name becomes `LastGlobSymbol` (and the cached `$$` suffix
+`TmpSymCounterVal` is dropped – the model recomputes the suffix from `lastGlob` each time, which is the same thing because
+the cache is cleared exactly where `LastGlobSymbol` is written) unless a reference asks -/
+def chkTmp3 (st : St) (name : Name) (src : SymSource) : St × Name :=
+  if name.head? = some chDot then (st, st.lastGlob ++ name)
+  else if src ≠ .none then ({ st with lastGlob := name }, name)
+  else (st, name)
+
 /-- `ChkTmp3` with `e_symbol_source_none` (references): `.name` ↦ `LastGlobSymbol ++ .name` -/
 def chkTmp3Ref (st : St) (name : Name) : Name :=
   if name.head? = some chDot then st.lastGlob ++ name else name
@@ -171,10 +186,17 @@ def natName (pfx : String) (k : Nat) : Name := (pfx ++ toString k).toUTF8.toList
 def addTmpSymLog (log : List (Bool × Nat)) (back : Bool) (cnt : Nat) : List (Bool × Nat) :=
   ((back, cnt) :: log).take locSymSight
 
+def hexDigit (n : Nat) : Nat := if n < 10 then 48 + n else 55 + n
+
+/-- stand-in for `SHA1ToHexString(SHA1(LastGlobSymbol))`: a string of hex digits that is injective in the bytes of
+`LastGlobSymbol` *as written* – the suffix is computed before `EnterSymbol` folds the case of the whole name, so `Tv` and
+`tv` give different suffixes also without `-U`, and folding the digits themselves changes nothing -/
+def hashName (n : Name) : Name := n.flatMap (fun c => [hexDigit (c / 16 % 16), hexDigit (c % 16)])
+
 /-- `ChkTmp1`: `$$name` ↦ name + hash(LastGlobSymbol) -/
 def chkTmp1 (st : St) (name : Name) : Option Name :=
   match name with
-  | 36 :: 36 :: r => some (r ++ [1] ++ st.lastGlob)
+  | 36 :: 36 :: r => some (r ++ [1] ++ hashName st.lastGlob)
   | _ => none
 
 /-- `ChkTmp2` for a *reference* (`e_symbol_source_none`) -/
@@ -193,8 +215,8 @@ def chkTmp2Ref (st : St) (name : Name) : Option Name :=
       if name.length ≤ locSymSight then some (natName "__forw" (st.fwdCnt + (name.length - 1))) else none
     else none
 
-/-- `ChkTmp` in `CreateSymbolEntry` (definitions): new state and the internal name -/
-def chkTmpDef (st : St) (name : Name) : St × Name :=
+/-- `ChkTmp` in `CreateSymbolEntry` (definitions, `src` = `label` or `define`): new state and the internal name -/
+def chkTmpDef (st : St) (name : Name) (src : SymSource) : St × Name :=
   match chkTmp1 st name with
   | some n => (st, n)
   | none =>
@@ -206,9 +228,7 @@ def chkTmpDef (st : St) (name : Name) : St × Name :=
       ({ st with log := addTmpSymLog st.log false st.fwdCnt, fwdCnt := st.fwdCnt + 1 }, natName "__forw" st.fwdCnt)
     else match chkTmp2Ref st name with
       | some n => (st, n)          -- `--`, `++` … used as a definition name: treated like a reference form
-      | none =>
-        if name.head? = some chDot then (st, st.lastGlob ++ name)
-        else ({ st with lastGlob := name }, name)
+      | none => chkTmp3 st name src
 
 /-! ### lookup -/
 
@@ -301,13 +321,22 @@ def enterSymbol (st : St) (name0 : Name) (v : Int) (mc : Bool) (res : Int) : St 
             enterTree st1 (name, attr) v mc
           | none => enterTree st (name, attr) v mc
 
-/-- `CreateSymbolEntry` + `EnterIntSymbolWithFlags` (outside macros: `MomLocHandle = -1`) -/
-def defineSymbol (st : St) (name0 : Name) (v : Int) (mc : Bool) : St :=
+/-- `CreateSymbolEntry` + `EnterIntSymbolWithFlags` (outside macros: `MomLocHandle = -1`); `src` = `label` when the
+caller is `LabelHandle` (`eSymbolFlag_Label`), `define` for every other defining statement -/
+def defineSymbol (st : St) (name0 : Name) (v : Int) (mc : Bool) (src : SymSource) : St :=
   match getSymSection st name0 with
   | .invName => st.err errInvSymName
   | .invSection => st.err errInvSection
-  | .plain n => let (st1, n1) := chkTmpDef st n; enterSymbol st1 n1 v mc (-2)
-  | .sect n h => let (st1, n1) := chkTmpDef st n; enterSymbol st1 n1 v mc h
+  | .plain n => let (st1, n1) := chkTmpDef st n src; enterSymbol st1 n1 v mc (-2)
+  | .sect n h => let (st1, n1) := chkTmpDef st n src; enterSymbol st1 n1 v mc h
+
+/-- `CodeENUM`: every member is entered as a constant with the running value (`name=value` sets it first), the counter
+advances by `EnumIncrement` (1: ENUMCONF is not used) whether or not the member could be entered -/
+def codeEnum (st : St) (items : List (Name × Option Int)) : St :=
+  items.foldl (fun s it =>
+    let cur := it.2.getD s.enumCur
+    let s1 := defineSymbol { s with enumCur := cur } it.1 cur false .define
+    { s1 with enumCur := cur + 1 }) st
 
 /-! ### SECTION / ENDSECTION / PUBLIC / GLOBAL / FORWARD -/
 
@@ -428,6 +457,10 @@ inductive Op where
   | pp (k : PPKind) (args : List (Name × Name))
   | pushv (stk : Name) (syms : List Name)
   | popv (stk : Name) (syms : List Name)
+  | labelOnly (name : Name)                         -- `name:` alone on its line
+  | labelWord (name : Name) (ref : Name)            -- `name: adr ref` – a label in front of a pseudo instruction
+  | labelPc (name : Name)                           -- `name LABEL $` (`*` on the 65xx)
+  | enum_ (next : Bool) (items : List (Name × Option Int))   -- `ENUM a,b=5,c` / `NEXTENUM …`
 deriving Repr
 
 def emitWord (st : St) (v : Int) : St :=
@@ -439,8 +472,12 @@ def step (st0 : St) (op : Op) : St :=
   match op with
   | .section_ n => codeSection st n
   | .endsection a => codeEndSection st a
-  | .define n v mc => defineSymbol st n v mc
-  | .label n => let s := defineSymbol st n st.pc false; { s with out := s.nopByte :: s.out, pc := s.pc + 1 }
+  | .define n v mc => defineSymbol st n v mc .define
+  | .label n => let s := defineSymbol st n st.pc false .label; { s with out := s.nopByte :: s.out, pc := s.pc + 1 }
+  | .labelOnly n => defineSymbol st n st.pc false .label
+  | .labelWord n r => let s := defineSymbol st n st.pc false .label; let (s2, v) := lookupSymbol s r; emitWord s2 v
+  | .labelPc n => defineSymbol st n st.pc false .define
+  | .enum_ next items => codeEnum (if next then st else { st with enumCur := 0 }) items
   | .use r => let (s, v) := lookupSymbol st r; emitWord s v
   | .pp k args => codePPSyms st k args
   | .pushv k syms => syms.foldl (fun s x => pushSymbol s x k) st
@@ -452,7 +489,7 @@ def run (st : St) (ops : List Op) : St := ops.foldl step st
 def initPass (st : St) (line0 : Nat) : St :=
   { st with passNo := st.passNo + 1, tab := st.tab.map (fun (k, e) => (k, { e with defined := false })),
             mom := -1, stack := [], repass := false, line := line0, pc := 0, out := [],
-            fwdCnt := 0, backCnt := 0, log := [], lastGlob := [], stacks := [] }
+            fwdCnt := 0, backCnt := 0, log := [], lastGlob := [], stacks := [], enumCur := 0 }
 
 /-- `AssembleFile_ExitPass`: `ClearStacks` (warning 230 per stack), open section -/
 def exitPass (st : St) : St :=
